@@ -2,6 +2,7 @@ package simrt
 
 import (
 	"fmt"
+	"reflect"
 	"runtime"
 )
 
@@ -13,28 +14,61 @@ type Hooks struct{}
 
 var Global = Hooks{}
 
+// cur identifies the calling goroutine. Between two scheduling decisions
+// exactly one simulated goroutine executes code outside the hooks (the one
+// the scheduler released), so the caller of a Pre-type hook is that goroutine;
+// reading the goroutine id from a stack dump costs ~5 us and is only done on
+// a sample of calls, as a check of that invariant. Goroutines that are woken
+// by another goroutine's operation run nothing but their Post hook, which
+// identifies them by the token their Pre hook returned.
 func cur() (*Sim, *G) {
 	s := current.Load()
 	if s == nil {
 		return nil, nil
 	}
-	g := s.lookup()
-	if g == nil {
+	g := s.cur
+	if g == nil || g.state != gRunning {
 		return nil, nil
+	}
+	s.idChecks++
+	if s.idChecks&63 == 1 || s.paranoid {
+		if id := goid(); id != g.goid {
+			s.mu.Lock()
+			s.toolErr("a goroutine the simulator did not release reached a hook (goid %d, expected g%d=%d)", id, g.ID, g.goid)
+			s.mu.Unlock()
+			return nil, nil
+		}
 	}
 	return s, g
 }
 
-func (Hooks) Pre(kind int, obj interface{}, site string) {
-	s, g := cur()
-	if g == nil {
-		return
+func (s *Sim) byTok(tok int) *G {
+	if tok < 1 {
+		return nil
 	}
-	s.park(g, pending{phase: phPre, kind: Kind(kind), obj: objKey(obj), keep: obj, site: site})
+	s.mu.Lock()
+	defer s.mu.Unlock()
+	if tok-1 < len(s.byID) {
+		return s.byID[tok-1]
+	}
+	return nil
 }
 
-func (Hooks) Post(kind int, obj interface{}, site string, aux int) {
+func (Hooks) Pre(kind int, obj interface{}, site string) int {
 	s, g := cur()
+	if g == nil {
+		return -1
+	}
+	s.park(g, pending{phase: phPre, kind: Kind(kind), obj: objKey(obj), keep: obj, site: site})
+	return g.ID
+}
+
+func (Hooks) Post(tok int, kind int, obj interface{}, site string, aux int) {
+	s := current.Load()
+	if s == nil {
+		return
+	}
+	g := s.byTok(tok)
 	if g == nil {
 		return
 	}
@@ -51,20 +85,56 @@ func (Hooks) Acc(addr interface{}, name string, write bool, site string) {
 	s.mu.Unlock()
 }
 
+// AccIdx records accesses to n elements of a slice starting at index first
+// (first < 0: starting at len(slice), i.e. an in-place append).
+func (Hooks) AccIdx(slice interface{}, first, n int, name string, write bool, site string) {
+	s, g := cur()
+	if g == nil {
+		return
+	}
+	v := reflect.ValueOf(slice)
+	if v.Kind() != reflect.Slice || v.Cap() == 0 {
+		return
+	}
+	if first < 0 {
+		first = v.Len()
+		if first+n > v.Cap() {
+			return // the append reallocates: the old array is only read, the new one is private
+		}
+	}
+	base := v.Pointer()
+	es := v.Type().Elem().Size()
+	if es == 0 {
+		return
+	}
+	s.mu.Lock()
+	for k := first; k < first+n && k < v.Cap(); k++ {
+		if k < 0 {
+			continue
+		}
+		s.access(g, base+uintptr(k)*es, slice, name, write, site)
+	}
+	s.mu.Unlock()
+}
+
 // IOPre yields before an I/O call and tells the trampoline what to do:
 // mode 0 = perform the call, 1 = skip it and return err, 2 = perform it and
 // return err in place of its error result.
-func (Hooks) IOPre(kind string, site string) (int, error) {
+func (Hooks) IOPre(kind string, site string) (int, int, error) {
 	s, g := cur()
 	if g == nil {
-		return 0, nil
+		return -1, 0, nil
 	}
 	s.park(g, pending{phase: phPre, kind: KIO, site: site, ioKind: kind})
-	return g.ioMode, g.ioErr
+	return g.ID, g.ioMode, g.ioErr
 }
 
-func (Hooks) IOPost(kind string, site string) {
-	s, g := cur()
+func (Hooks) IOPost(tok int, kind string, site string) {
+	s := current.Load()
+	if s == nil {
+		return
+	}
+	g := s.byTok(tok)
 	if g == nil {
 		return
 	}
@@ -127,7 +197,7 @@ func (Hooks) Exit(tok int, r interface{}) {
 		}
 		s.mu.Unlock()
 	}
-	if g == nil || g.goid != goid() {
+	if g == nil {
 		if r != nil {
 			panic(r) // not ours: behave like the unwoven code
 		}
